@@ -129,9 +129,20 @@ func VerifC13PrimaryHalt() {
 		if !held {
 			rt.Assume(false)
 		}
-		// the clock may or may not have passed the expiry
-		db.EnforceHaltLockExpiration(ctx)
+		// the node may have stopped being primary since it granted the lock (lease lost, handoff); the
+		// sweep is the store's, run by its background monitor on every node
+		if rt.Choose("granter.demoted", 2) == 1 {
+			verifDemote(w.store)
+		}
+		pastExpiry := rt.Choose("clock.past.expiry", 2) == 1
+		if pastExpiry {
+			rt.ClockAdvance(int64(w.store.HaltLockTTL) + int64(time.Second))
+		}
+		w.store.EnforceHaltLockExpiration(ctx)
 		cur := db.haltLockAndGuard.Load().(*haltLockAndGuard)
+		if pastExpiry {
+			rt.Check(cur == nil, "a halt lock whose TTL has passed is released by the sweep, whatever the node's role is by then")
+		}
 		if cur == nil {
 			rt.Check(verifAllUnlocked(db), "an expired halt lock frees every lock")
 			rt.Reach("c13.expired")
